@@ -79,6 +79,21 @@ pub fn write_docs(docs: &[Vec<u8>], tag: &str) -> Vec<String> {
             let _ = std::fs::create_dir_all(&dir);
             std::fs::write(&p, d).expect("write fibex file");
         }
+        // file metadata is part of what a loader may look at: a quarter of the files carry a modification time other
+        // than "just now" (the epoch, a second / a day / two centuries ahead of the clock: copied archives, clock skew)
+        let h = crate::util::hash_str(&format!("{}:{}", d.len(), i)) ^ d.iter().take(64).fold(0u64, |a, b| a.wrapping_mul(31).wrapping_add(*b as u64));
+        if h % 4 == 0 {
+            use std::time::{Duration, SystemTime};
+            let stamp = match (h >> 2) % 4 {
+                0 => SystemTime::UNIX_EPOCH,
+                1 => SystemTime::now() + Duration::from_secs(1),
+                2 => SystemTime::now() + Duration::from_secs(86_400),
+                _ => SystemTime::UNIX_EPOCH + Duration::from_secs(7_258_118_400),
+            };
+            if let Ok(f) = std::fs::OpenOptions::new().write(true).open(&p) {
+                let _ = f.set_modified(stamp);
+            }
+        }
         paths.push(p.to_string_lossy().to_string());
     }
     paths
